@@ -31,8 +31,8 @@ Example ex_prog_small : small_program ex_prog.
 Proof.
   split.
   - unfold source_ok. cbn [pfns pglobals ex_prog]. repeat split.
-    + repeat constructor; cbn; repeat split; reflexivity.
-    + repeat constructor; cbn; repeat split; reflexivity.
+    + repeat constructor; cbn; repeat split; try reflexivity; try (intro Hc; discriminate Hc).
+    + repeat constructor; cbn; repeat split; try reflexivity; try (intro Hc; discriminate Hc).
     + repeat constructor. intros [].
     + unfold VM_MAX_GLOBALS_N. cbn [length map]. lia.
   - intros M H. vm_compute in H. injection H as <-. unfold module_small. cbn [m_code m_strings m_fns].
@@ -67,7 +67,7 @@ Example ex_fall_small : small_program ex_fall.
 Proof.
   split.
   - unfold source_ok. cbn [pfns pglobals ex_fall]. repeat split.
-    + repeat constructor; cbn; repeat split; reflexivity.
+    + repeat constructor; cbn; repeat split; try reflexivity; try (intro Hc; discriminate Hc).
     + constructor.
     + constructor.
     + unfold VM_MAX_GLOBALS_N. cbn [length]. lia.
@@ -108,8 +108,8 @@ Example ex_arr_small : small_program ex_arr.
 Proof.
   split.
   - unfold source_ok. cbn [pfns pglobals ex_arr]. repeat split.
-    + repeat constructor; cbn; repeat split; reflexivity.
-    + repeat constructor; cbn; repeat split; reflexivity.
+    + repeat constructor; cbn; repeat split; try reflexivity; try (intro Hc; discriminate Hc).
+    + repeat constructor; cbn; repeat split; try reflexivity; try (intro Hc; discriminate Hc).
     + repeat constructor. intros [].
     + unfold VM_MAX_GLOBALS_N. cbn [length map]. lia.
   - intros M H. vm_compute in H. injection H as <-. unfold module_small. cbn [m_code m_strings m_fns].
@@ -146,7 +146,7 @@ Example ex_oob_small : small_program ex_oob.
 Proof.
   split.
   - unfold source_ok. cbn [pfns pglobals ex_oob]. repeat split.
-    + repeat constructor; cbn; repeat split; reflexivity.
+    + repeat constructor; cbn; repeat split; try reflexivity; try (intro Hc; discriminate Hc).
     + constructor.
     + constructor.
     + unfold VM_MAX_GLOBALS_N. cbn [length]. lia.
@@ -169,4 +169,77 @@ Qed.
 Example ex_arrays_accepted : wt ex_arr = true /\ small_program ex_arr /\ wt ex_oob = true /\ small_program ex_oob.
 Proof.
   split; [vm_compute; reflexivity|]. split; [exact ex_arr_small|]. split; [vm_compute; reflexivity|exact ex_oob_small].
+Qed.
+
+(* strings as computed values: every string builtin of the fragment
+   let v10: string = "hello"
+   fn f1(v1: string, v2: int) -> string { return (str_substring v1 v2 3) }
+   fn main() -> int {
+     let mut v3: string = (+ v10 " world")   (println v3)   (println (str_length v3))
+     set v3 (str_concat (f1 v3 6) (int_to_string -42))   (println v3)
+     (println (str_equals v3 "wor-42"))   (println (str_contains v10 "ell"))   (println (str_substring v10 5 2))
+     assert (== (char_at v10 1) 101)   return (char_at v3 0) }
+   prints  hello world / 11 / wor-42 / true / true / (empty line), exit status 119 *)
+Definition ex_str_out : list N :=
+  [104; 101; 108; 108; 111; 32; 119; 111; 114; 108; 100; 10; 49; 49; 10; 119; 111; 114; 45; 52; 50; 10;
+   116; 114; 117; 101; 10; 116; 114; 117; 101; 10; 10].
+Definition ex_str : program :=
+  {| pglobals := [(10, TStr, EStr [104;101;108;108;111])];
+     pfns := [
+       {| fname := 1; fparams := [(1, TStr); (2, TInt)]; fret := TStr; fbody := SReturn (Some (ESubstr (EVar 1) (EVar 2) (ENum 3))) |};
+       {| fname := 0; fparams := []; fret := TInt;
+          fbody :=
+            SSeq (SLet true 3 TStr (EStr2 SPlus (EVar 10) (EStr [32;119;111;114;108;100])))
+            (SSeq (SPrint true (EVar 3))
+            (SSeq (SPrint true (EStr1 SLen (EVar 3)))
+            (SSeq (SSet 3 (EStr2 SConcat (ECall 1 [EVar 3; ENum 6]) (EStr1 SOfInt (ENum (-42)))))
+            (SSeq (SPrint true (EVar 3))
+            (SSeq (SPrint true (EStr2 SEquals (EVar 3) (EStr [119;111;114;45;52;50])))
+            (SSeq (SPrint true (EStr2 SContains (EVar 10) (EStr [101;108;108])))
+            (SSeq (SPrint true (ESubstr (EVar 10) (ENum 5) (ENum 2)))
+            (SSeq (SAssert (EBin BEq (EStr2 SCharAt (EVar 10) (ENum 1)) (ENum 101)))
+                  (SReturn (Some (EStr2 SCharAt (EVar 3) (ENum 0)))))))))))) |} ];
+     pmain := 0 |}.
+
+Example ex_str_small : small_program ex_str.
+Proof.
+  split.
+  - unfold source_ok. cbn [pfns pglobals ex_str]. repeat split.
+    + repeat constructor; cbn; repeat split; try reflexivity; try (intro Hc; discriminate Hc).
+    + repeat constructor; cbn; repeat split; try reflexivity; try (intro Hc; discriminate Hc).
+    + repeat constructor. intros [].
+    + unfold VM_MAX_GLOBALS_N. cbn [length map]. lia.
+  - intros M H. vm_compute in H. injection H as <-. unfold module_small. cbn [m_code m_strings m_fns].
+    repeat split; try (vm_compute; reflexivity); try (intro Hc; discriminate Hc).
+    repeat constructor; cbn [fe_locals]; intro Hc; discriminate Hc.
+Qed.
+
+Example ex_str_correct : exists M, compile_program ex_str = Some M /\
+  run_ref 200 ex_str = Done ex_str_out 119 /\
+  ((exists fuel', run_vm fuel' M = VDone ex_str_out 119) \/ (exists fuel' o, run_vm fuel' M = VError ECallDepth o)) /\
+  run_vm 5000 M = VDone ex_str_out 119.
+Proof.
+  destruct (compile_program ex_str) as [M|] eqn:E; [|vm_compute in E; discriminate E].
+  exists M. split; [reflexivity|]. split; [vm_compute; reflexivity|]. split.
+  - apply (vm_correct ex_str M 200); [exact E|exact ex_str_small|unfold fuel_small; lia|vm_compute; reflexivity].
+  - vm_compute in E. injection E as <-. vm_compute. reflexivity.
+Qed.
+
+Example ex_str_accepted : wt ex_str = true /\ small_program ex_str.
+Proof. split; [vm_compute; reflexivity|exact ex_str_small]. Qed.
+
+(* outside the common domain of char_at:   fn main() -> int { (println (char_at "abc" 3))  return 0 }
+   the reference is undefined there (FStrDomain: the engines disagree, finding lang:char-at-out-of-range); the VM model prints
+   what the real VM prints (-1).  vm_correct and backends_agree say nothing about this run *)
+Definition ex_str_dom : program :=
+  {| pglobals := [];
+     pfns := [ {| fname := 0; fparams := []; fret := TInt;
+                  fbody := SSeq (SPrint true (EStr2 SCharAt (EStr [97; 98; 99]) (ENum 3))) (SReturn (Some (ENum 0))) |} ];
+     pmain := 0 |}.
+Example ex_str_dom_runs : exists M, compile_program ex_str_dom = Some M /\
+  run_ref 50 ex_str_dom = Faulted FStrDomain [] /\ run_vm 500 M = VDone [45; 49; 10] 0.
+Proof.
+  destruct (compile_program ex_str_dom) as [M|] eqn:E; [|vm_compute in E; discriminate E].
+  exists M. split; [reflexivity|]. split; [vm_compute; reflexivity|].
+  vm_compute in E. injection E as <-. vm_compute. reflexivity.
 Qed.
